@@ -11,7 +11,7 @@
    A transport under a writer is `wtr_new (Some i) m term`: Write call number i accepts only the first
    m bytes (all but one at most when term = None: a short write without error) and reports term. *)
 From Verif Require Import Lib.Base Lib.Sx Lib.Err Lib.IO Model.ErrorsPkg Model.Faults.
-From Verif Require Import Proofs.ErrorsPkg Proofs.FaultsIO Proofs.Faults Proofs.FaultsFlv Proofs.FaultsWrite.
+From Verif Require Import Proofs.ErrorsPkg Proofs.FaultsIO Proofs.Faults Proofs.FaultsFlv Proofs.FaultsWrite Proofs.FaultsBufw.
 From Verif Require Model.Flv Proofs.Flv.
 Open Scope N_scope.
 
@@ -200,6 +200,55 @@ Example c08_rtmp_read_example :
   run 141 id_EOF = (0, id_EOF) /\ run 200 4 = (0, 4).
 Proof. vm_compute. auto 10. Qed.
 
+(* ================================ RTMP write path (partial) ================================
+   The write path as the operations it performs: the handshake writes (one io.Copy each on the raw
+   transport) and, per WriteMessage, the io.Copy of c0/c3 headers and payload parts into the
+   bufio.Writer followed by Flush (`rtmp_wops`: the pieces; their content is irrelevant here).
+   For EVERY transport fault (any call index, any number of accepted bytes, an error or a short
+   write without error) the session ends in one of two ways (`session_ok`):
+   - no error: every operation succeeded, the transport is intact and the peer has received exactly
+     the bytes of all operations;
+   - error e after n operations: e is the transport's error (io.ErrShortWrite for a short write),
+     the n operations that succeeded are completely on the peer's side, of operation n+1 the peer
+     has a (possibly empty) prefix, and nothing beyond -- so the peer sees a prefix of the fault-free
+     wire, and a fault that hit is never swallowed: the operation during which the transport broke is
+     the one that returns the error (bufio's sticky error surfaces at the latest in the Flush that
+     ends the operation). *)
+Theorem c08_rtmp_write_partial hs ms fa m term :
+  let w0 := wtr_new fa m term in
+  let '(n, oe, w) := rtmp_write_session hs ms w0 in
+  match oe with
+  | None => n = N.of_nat (length (rtmp_wops hs ms)) /\ wt_failed w = false /\
+            wt_received w = concat (concat (rtmp_wops hs ms))
+  | Some e => e = wt_err w0 /\ wt_failed w = true /\
+              exists k, n = N.of_nat k /\ (k < length (rtmp_wops hs ms))%nat /\
+              exists pre rest,
+                wt_received w = concat (concat (firstn k (rtmp_wops hs ms))) ++ pre /\
+                concat (concat (firstn (S k) (rtmp_wops hs ms))) = wt_received w ++ rest
+  end.
+Proof.
+  intros w0. pose proof (rtmp_write_session_spec hs ms fa m term) as H. cbn zeta in H. fold w0 in H.
+  destruct (rtmp_write_session hs ms w0) as [[n oe] w]. unfold session_ok in H.
+  destruct oe as [e|]; cbn [app] in H; exact H.
+Qed.
+
+(* the same for any sequence of operations through a bufio.Writer (pieces of any content),
+   starting from a writer with nothing buffered on an intact transport *)
+Theorem c08_bufio_write_ops ops b n : clean b -> bw_buf b = [] ->
+  let '(n', oe, b') := rtmp_write_ops ops b n in
+  session_ok (wt_received (bw_under b)) ops n n' oe (wt_err (bw_under b)) (bw_under b').
+Proof. exact (rtmp_write_ops_cases ops b n). Qed.
+
+(* non-vacuity: a 300-byte message (pieces 12,128,1,128,1,44) after the handshake; fault at the
+   4th transport write (the Flush of the message) accepting 100 bytes: 3 operations succeeded, the
+   4th reports the injected error 4, the peer has the handshake and 100 bytes of the message *)
+Example c08_rtmp_write_example :
+  let ms := [mk_rmsg 0 3 9 1000 300 0] in
+  let '(n, e, w) := rtmp_write_session true ms (wtr_new (Some 3) 100 (Some 4)) in
+  n = 3 /\ e = Some 4 /\ lenN (wt_received w) = 3073 + 100 /\
+  lenN (concat (concat (rtmp_wops true ms))) = 3073 + 314.
+Proof. vm_compute. auto. Qed.
+
 Print Assumptions c08_errors_cause.
 Print Assumptions c08_errors_cause_any.
 Print Assumptions c08_errors_message.
@@ -216,3 +265,5 @@ Print Assumptions c08_plan_items.
 Print Assumptions c08_plan_boundary.
 Print Assumptions c08_plan_inside.
 Print Assumptions c08_rtmp_read_always_error.
+Print Assumptions c08_rtmp_write_partial.
+Print Assumptions c08_bufio_write_ops.
